@@ -342,6 +342,10 @@ def run_C16(ctx):
     rng = ctx.rng
     prof = {"p_fail": 0.3, "nops": (1, 6), "p_trough": 0.5, "p_dist_alias": 0.35, "p_same_name": 0.2}
     base = corpus_progs(ctx) + [G.gen_worklist_program(rng, prof) for _ in range(ctx.n(110))]
+    # refused transfers (every injected fault class, incl. argument lists of incompatible lengths) and transfers
+    # inside one labware: the places where a device-specific transfer implementation can differ from its twin
+    prof2 = {"p_fail": 0.85, "nops": (1, 3), "kinds": ["transfer"], "fail_kinds": ["transfer"], "p_trough": 0.4}
+    base += [G.gen_worklist_program(rng, prof2) for _ in range(ctx.n(45))]
     progs = []
     for p in base:
         for dev in ("evo", "fluent", "base"):
@@ -745,7 +749,9 @@ register("C01", run_C01, module="Robotools.Props.C01", extra_modules=["Robotools
                                                   "step_amounts", "replay_composition", "amount_well")]
                   + ["Robotools.Amt." + t for t in ("amtOf_amtMerge", "take_amt", "put_amt", "interp_asp_amt", "interp_disp_amt", "asp1", "disp1",
                                                     "ablock_pair", "ablock_compileTransfer", "compile_ablock", "amtOK_ofLabs")]
-                  + ["Robotools.C01D." + t for t in ("replay_volumes_dist", "replay_volumes_evo", "replay_volumes_fluent", "srcOK_evo", "srcOK_fluent", "compile_safeD")]
+                  + ["Robotools.C01D." + t for t in ("replay_volumes_dist", "replay_volumes_evo", "replay_volumes_fluent", "srcOK_evo", "srcOK_fluent", "compile_safeD",
+                                                     "replay_composition_dist", "replay_composition_evo", "compile_ablockD")]
+                  + ["Robotools.Dist." + t for t in ("ablock_compileDistribute", "dist_core", "go_amt", "interp_rd_amt", "exec_ads_amt")]
                   + ["Robotools.Dist." + t for t in ("posInj_evo", "posInj_fluent_plate", "posInj_fluent_trough1", "nodup_pos")]
                   + ["Robotools.Dist." + t for t in ("safe_compileDistribute", "interp_rd", "go_spec", "dsts_eq", "addChecked_perm", "exec_ads")]
                   + ["Robotools.RP." + t for t in ("wellOf_pos", "interp_asp", "interp_disp", "asp_core", "disp_core", "compile_safe")],
@@ -769,7 +775,7 @@ register("C04", run_C04, module="Robotools.Props.C04",
 register("C05", run_C05, module="Robotools.Props.C05History", extra_modules=["Robotools.Proofs.GenFns"],
          theorems=["Robotools.C05." + t for t in ("combine_zero", "combine_spec", "wellComp_spec", "addStep_amount", "addStep_compValid",
                    "removeStep_frac", "removeStep_amount", "addStep_fracSum", "frac_range", "pair_conserves", "pair_same_well",
-                   "history_normalised", "history_ideal_mixture", "constructed_good")]
+                   "history_normalised", "history_ideal_mixture", "history_normalised_dist", "history_ideal_mixture_dist", "constructed_good")]
                   + ["Robotools.CtorGood.mk_good", "Robotools.CtorGood.trough_mk_good"]
                   + ["Robotools.GenFns.all_translated", "Robotools.GenFns.gen_combine_composition_ok"]
                   + ["Robotools.Amt." + t for t in ("mixed_removeStep", "mixed_addStep", "take_amt", "put_amt", "ablock_pair", "compile_ablock")], rule="transfer/distribute/dispense histories with shared component names; exact amounts ledger")
